@@ -101,3 +101,19 @@ Theorem C10_msgpack_roundtrip :
       (serialize (list N) mp_ser_inner mp_wrap d v) = OOk v.
 Proof. exact mp_roundtrip. Qed.
 Print Assumptions C10_msgpack_roundtrip.
+
+(* the size hypothesis of the MessagePack string round trip in terms of what nutype's own rule
+   `len_char_max` counts (scalar values): a string of fewer than 2^30 characters always fits,
+   since UTF-8 spends between one and four bytes per scalar value *)
+From NV Require Import Lemmas.Utf8Order.
+Theorem C10_utf8_length :
+  forall s : list N, (List.length s <= List.length (utf8_encode s) <= 4 * List.length s)%nat.
+Proof. exact utf8_encode_length. Qed.
+Theorem C10_msgpack_str_roundtrip_chars :
+  forall s : list N, Forall (fun c => scalar c = true) s ->
+    (N.of_nat (List.length s) < 1073741824)%N -> mp_read_str (mp_write_str s) = Some s.
+Proof.
+  intros s Hs Hlen. apply mp_read_write_str; [exact Hs|].
+  pose proof (utf8_encode_length s) as [_ H]. lia.
+Qed.
+Print Assumptions C10_msgpack_str_roundtrip_chars.
